@@ -138,6 +138,23 @@ def render(e, mode, rng=None):
     return Printer(mode, rng).p(e, 1, root=True)
 
 
+def compact(text):
+    """remove the blanks outside string literals, except where two tokens would merge (keyword/identifier/number runs)"""
+    out = []
+    in_str = False
+    for i, ch in enumerate(text):
+        if ch == '"':
+            in_str = not in_str
+        if ch == " " and not in_str:
+            prev = out[-1] if out else ""
+            nxt = text[i + 1] if i + 1 < len(text) else ""
+            if (prev.isalnum() or prev == "_") and (nxt.isalnum() or nxt == "_"):
+                out.append(ch)
+            continue
+        out.append(ch)
+    return "".join(out)
+
+
 def shapes(n):
     """all binary tree shapes with n internal nodes, as nested tuples of None leaves"""
     if n == 0:
@@ -336,6 +353,10 @@ def run(ctx, model_ok):
     def add(stream, tree, variants=("min", "full", "extra", "extra", "extra")):
         for v in variants:
             cases.append((stream, tree, v, render(tree, v, rng)))
+        if "min" in variants and stream != "seq3":
+            # the same minimal text with every optional blank removed (`xs[i]-1`, `a<-3`, `1..2`): grouping is a matter of
+            # tokens, not of spacing
+            cases.append((stream, tree, "compact", compact(render(tree, "min", rng))))
 
     leaves = [("Var", v) for v in VARS]
     flat_of = {}
@@ -395,8 +416,17 @@ def run(ctx, model_ok):
             ctx.violation(f"C08: `{text}` is not parsed as the tree it was printed from ({variant} parentheses)",
                           f"# C08 expected tree: {sexp(('Call', ('Var', 'print'), [(tree, False)]))}\n" + p1, details)
         else:
-            ctx.unproved("ast:roundtrip", f"`{text}` ({variant} parentheses) is not parsed as the tree it was printed from; "
-                         "no operand values were found that make the difference visible through the CLI", details)
+            # The property is about the *parsed program*; the syntax-tree dump is the implementation's own account of it.
+            # Twice the same answer from two independent dumps (program form and expression form) is taken as observed,
+            # even when no operand values make the two groupings print differently through the CLI.
+            again = dump_tree(core.batch("impl", "ast", [program(text)])[0])
+            details["observed_through"] = "syntax-tree hook only (no operand values distinguish the groupings through the CLI)"
+            if again == got and got != sexp(tree):
+                ctx.violation(f"C08: `{text}` is not parsed as the tree it was printed from ({variant} parentheses)",
+                              f"# C08 expected tree: {sexp(tree)}\n" + program(text), details)
+            else:
+                ctx.unproved("ast:roundtrip", f"`{text}` ({variant} parentheses) is not parsed as the tree it was printed from; "
+                             "the dump did not reproduce", details)
     # ---- grouping of every operator pair through the CLI
     confirm_pairs(ctx, rng)
     # ---- leg B: model vs implementation, trees with positions
